@@ -1,13 +1,13 @@
 SPECIFICATION Spec
 CONSTANTS
-  EffTokens = {"pa", "pae", "pn", "pas", "pab", "w", "sp", "pnn", "in"}
+  EffTokens = {"pa", "pae", "sp", "in", "pn", "w", "pab"}
   MaxEff = 2
   Modes = {"normal", "exc"}
-  FnModes = {"normal", "exc"}
-  MaxFns = 1
+  FnModes = {"normal"}
+  MaxFns = 0
   Depth = 3
   InputOps = {"clear_output", "set_input", "clear_input"}
-  Entries = {"run", "call"}
+  Entries = {"run"}
   TracerStyles = {"none"}
   Threadeds = {FALSE}
   Flags = {}
